@@ -379,6 +379,10 @@ def configs(tier):
                     tag = "all" if k == order else "some"
                     for budget in (0, 1):
                         add(f"tucker_fixed_{tag}/tucker/o{order}/r{r}/b{budget}/modes{''.join(map(str, sub))}", kind="tk_fixed", alg="tucker", order=order, r=r, fixed=sub, budget=budget, orth=True)
+                    if 1 < k < order:
+                        # the same subset listed in descending order (the caller's list need not be sorted)
+                        rsub = tuple(reversed(sub))
+                        add(f"tucker_fixed_{tag}/tucker/o{order}/r{r}/b1/modes{''.join(map(str, rsub))}", kind="tk_fixed", alg="tucker", order=order, r=r, fixed=rsub, budget=1, orth=True)
                     if order - 1 not in sub:
                         # (a last mode declared fixed is un-fixed with a warning exactly as in the CP algorithms, where it is
                         # decided; here the refinement of the root atoms of the error computation does not terminate in budget)
